@@ -32,7 +32,7 @@ type c20Case struct {
 	Ops  []c20Op  `json:"ops"`
 }
 
-var c20Names = []string{"a", "A", "b", "_x", "@", "*", "#", "?", "-", "$", "!", "0", "1", "2", "10"}
+var c20Names = []string{"a", "A", "b", "_x", "@", "*", "#", "?", "-", "$", "!", "0", "1", "2", "10", "01", "08", "010", ""}
 
 func c20Special(n string) bool {
 	switch n {
@@ -188,6 +188,47 @@ func checkC20(c c20Case) error {
 					return fmt.Errorf("%s: error %T %v, want a ParamExpError", step, gerr, gerr)
 				}
 			}
+		case "arith":
+			// the expression as an arithmetic expansion, expanded twice from the
+			// same parsed word
+			cmd, _, err := parser.ParseCommand("c20", "_ $(("+op.Src+"))")
+			if err != nil {
+				return fmt.Errorf("harness: %q: %v", op.Src, err)
+			}
+			w := cmd.(*ast.Cmd).Expr.(*ast.SimpleCmd).Args[1]
+			snap := oracle.Snapshot(w)
+			tree, ok := c20Exprs[op.Src]
+			if !ok {
+				return fmt.Errorf("harness: unknown expression %q", op.Src)
+			}
+			for round := 1; round <= 2; round++ {
+				st := map[string]string{}
+				for k, v := range model {
+					st[k] = v
+				}
+				ev := &ref.AEval{Store: st}
+				want, fault := ev.Eval(tree)
+				var got []string
+				var gerr error
+				if e := guard(func() error { got, gerr = env.Expand(w, 0); return nil }); e != nil {
+					return fmt.Errorf("%s: Expand %v", step, e)
+				}
+				if oracle.Snapshot(w) != snap {
+					return fmt.Errorf("%s: Expand changed the word it was given (expansion %d)", step, round)
+				}
+				if (fault != nil) != (gerr != nil) {
+					return fmt.Errorf("%s: expansion %d of $((%s)): error %v, reference fault %v", step, round, op.Src, gerr, fault)
+				}
+				if fault == nil {
+					if len(got) != 1 || got[0] != strconv.FormatInt(want, 10) {
+						return fmt.Errorf("%s: expansion %d of $((%s)) = %q, want %d", step, round, op.Src, got, want)
+					}
+					model = st
+				}
+				if err := invariant(fmt.Sprintf("%s (expansion %d)", step, round)); err != nil {
+					return fmt.Errorf("%v\nhistory: %+v", err, c.Ops[:i+1])
+				}
+			}
 		case "eval":
 			// reference evaluation on a copy of the model
 			st := map[string]string{}
@@ -250,6 +291,11 @@ var c20Exprs = map[string]*ref.ANode{
 	"a + b":     {Kind: "bin", Op: "+", A: &ref.ANode{Kind: "var", S: "a"}, B: &ref.ANode{Kind: "var", S: "b"}},
 	"A <<= 1":   {Kind: "asg", Op: "<<=", S: "A", A: &ref.ANode{Kind: "num", S: "1"}},
 	"a /= 0":    {Kind: "asg", Op: "/=", S: "a", A: &ref.ANode{Kind: "num", S: "0"}},
+	// the operand of ++ / -- is not a variable: a fault, and nothing is stored
+	"--5":       {Kind: "predec", S: "5"},
+	"7++":       {Kind: "postinc", S: "7"},
+	"--(a + 4)": {Kind: "predec", S: "(a + 4)"},
+	"++b":       {Kind: "preinc", S: "b"},
 }
 
 func c20Alphabet() []c20Op {
@@ -264,6 +310,7 @@ func c20Alphabet() []c20Op {
 	for _, src := range []string{"a = 7", "a *= 3", "_x++"} {
 		ops = append(ops, c20Op{Kind: "eval", Src: src})
 	}
+	ops = append(ops, c20Op{Kind: "arith", Src: "a = 7"}, c20Op{Kind: "eval", Src: "--5"})
 	return ops
 }
 
@@ -274,7 +321,7 @@ func c20NonTrivial(c c20Case) bool {
 		case "expand":
 			assigning = assigning || strings.Contains(op.Src, "=")
 			undo = undo || strings.Contains(op.Src, "?")
-		case "eval":
+		case "eval", "arith":
 			assigning = assigning || strings.ContainsAny(op.Src, "=+-")
 		case "unset":
 			undo = true
@@ -351,7 +398,7 @@ func TestC20(t *testing.T) {
 		c.Opts = uint(rapid.SampledFrom([]interp.Option{0, interp.NoGlob, interp.AllExport | interp.XTrace}).Draw(rt, "opts"))
 		k := rapid.IntRange(1, 12).Draw(rt, "nops")
 		for i := 0; i < k; i++ {
-			switch rapid.IntRange(0, 5).Draw(rt, "op") {
+			switch rapid.IntRange(0, 6).Draw(rt, "op") {
 			case 0:
 				c.Ops = append(c.Ops, c20Op{Kind: "set", Name: rapid.SampledFrom(c20Names).Draw(rt, "name"), Value: rapid.SampledFrom(values).Draw(rt, "value")})
 			case 1:
@@ -360,8 +407,8 @@ func TestC20(t *testing.T) {
 				c.Ops = append(c.Ops, c20Op{Kind: "walk"})
 			case 3, 4:
 				name := rapid.SampledFrom(c20Names).Draw(rt, "name")
-				if name == "#" {
-					name = "a" // ${#:=W} and friends read as other forms
+				if name == "#" || name == "" || len(name) > 1 && name[0] == '0' {
+					name = "a" // ${#:=W} and friends read as other forms; ${01} is not accepted; these names are exercised through Get / Set / Unset
 				}
 				op := rapid.SampledFrom([]string{":=", "=", ":?", ":-", "+", "", "%", "##"}).Draw(rt, "pop")
 				src := "${" + name + op + "W}"
@@ -375,6 +422,8 @@ func TestC20(t *testing.T) {
 			case 5:
 				_ = ordinary
 				c.Ops = append(c.Ops, c20Op{Kind: "eval", Src: rapid.SampledFrom(exprs).Draw(rt, "expr")})
+			case 6:
+				c.Ops = append(c.Ops, c20Op{Kind: "arith", Src: rapid.SampledFrom(exprs).Draw(rt, "expr")})
 			}
 		}
 		run(rt, c, true)
